@@ -15,7 +15,7 @@
      *MACEntry is its MAC.  HostTable.Table (a Go map) is an association list
      with map semantics (lookup = first match, put removes every older binding);
      MACTable.Table and MACEntry.HostList (Go slices) are ordered lists;
-   * only NameEntry.Name of the five names is modelled (a number, 0 = "");
+   * the five learned names carry the four attributes NameEntry.Merge compares (numbers, 0 = "");
      Manufacturer, HuntStage, MACEntry.LastSeen, IP6Offer, statistics are not
      modelled (no property of the cluster constrains them);
    * time is Z seconds; [now] is an argument of every step;
@@ -90,12 +90,18 @@ Definition mac_unicast (m : mac) : bool := (m / 1099511627776) mod 2 =? 0.
 (* ------------------------------------------------------------------ *)
 (* records *)
 
-Record names : Set := { n_dhcp : N; n_mdns : N; n_ssdp : N; n_llmnr : N; n_nbns : N }.
-Definition names0 : names := {| n_dhcp := 0; n_mdns := 0; n_ssdp := 0; n_llmnr := 0; n_nbns := 0 |}.
+(* a learned NameEntry: the four attributes Merge compares (0 = ""); Type and Expire are not modelled *)
+Record nent : Set := { ne_name : N; ne_model : N; ne_os : N; ne_manuf : N }.
+Definition nent0 : nent := {| ne_name := 0; ne_model := 0; ne_os := 0; ne_manuf := 0 |}.
+(* an entry that carries only a Name (examples) *)
+Definition named (n : N) : nent := {| ne_name := n; ne_model := 0; ne_os := 0; ne_manuf := 0 |}.
+
+Record names : Set := { n_dhcp : nent; n_mdns : nent; n_ssdp : nent; n_llmnr : nent; n_nbns : nent }.
+Definition names0 : names := {| n_dhcp := nent0; n_mdns := nent0; n_ssdp := nent0; n_llmnr := nent0; n_nbns := nent0 |}.
 Inductive nkind : Set := KDhcp | KMdns | KSsdp | KLlmnr | KNbns.
-Definition nget (k : nkind) (n : names) : N :=
+Definition nget (k : nkind) (n : names) : nent :=
   match k with KDhcp => n_dhcp n | KMdns => n_mdns n | KSsdp => n_ssdp n | KLlmnr => n_llmnr n | KNbns => n_nbns n end.
-Definition nset (k : nkind) (v : N) (n : names) : names :=
+Definition nset (k : nkind) (v : nent) (n : names) : names :=
   match k with
   | KDhcp => {| n_dhcp := v; n_mdns := n_mdns n; n_ssdp := n_ssdp n; n_llmnr := n_llmnr n; n_nbns := n_nbns n |}
   | KMdns => {| n_dhcp := n_dhcp n; n_mdns := v; n_ssdp := n_ssdp n; n_llmnr := n_llmnr n; n_nbns := n_nbns n |}
@@ -104,9 +110,17 @@ Definition nset (k : nkind) (v : N) (n : names) : names :=
   | KNbns => {| n_dhcp := n_dhcp n; n_mdns := n_mdns n; n_ssdp := n_ssdp n; n_llmnr := n_llmnr n; n_nbns := v |}
   end.
 
-(* NameEntry.Merge on the Name field: (merged, modified) *)
-Definition merge (old new : N) : N * bool :=
+(* NameEntry.Merge (mactable.go:169-191), attribute by attribute in source order: a non-empty attribute that
+   differs replaces the old one and marks the entry modified; every attribute is merged whether or not an
+   earlier one changed *)
+Definition merge1 (old new : N) : N * bool :=
   if negb (new =? 0) && negb (old =? new) then (new, true) else (old, false).
+Definition merge (old new : nent) : nent * bool :=
+  let (a, ma) := merge1 (ne_name old) (ne_name new) in
+  let (b, mb) := merge1 (ne_model old) (ne_model new) in
+  let (c, mc) := merge1 (ne_os old) (ne_os new) in
+  let (d, md) := merge1 (ne_manuf old) (ne_manuf new) in
+  ({| ne_name := a; ne_model := b; ne_os := c; ne_manuf := d |}, ma || mb || mc || md).
 
 Record host : Set := {
   h_ip : ip;          (* Host.Addr.IP *)
@@ -308,7 +322,7 @@ Definition find_or_create (m : mac) (k : ip) (now : Z) (s : state) : res (state 
   end.
 
 (* Update*Name: the five methods differ only in the field *)
-Definition update_name (kd : nkind) (k : ip) (name : N) (s : state) : state :=
+Definition update_name (kd : nkind) (k : ip) (name : nent) (s : state) : state :=
   match hlookup k (hosts s) with
   | None => s
   | Some h =>
@@ -459,7 +473,7 @@ Definition notify (f : frame) (s : state) : state :=
 Inductive terr : Set := TInvalidIP | TIsRouter.
 
 (* DHCPv4Update *)
-Definition dhcp4_update (m : mac) (k : ip) (name : N) (now : Z) (s : state) : res (state * option terr) :=
+Definition dhcp4_update (m : mac) (k : ip) (name : nent) (now : Z) (s : state) : res (state * option terr) :=
   if negb (is_valid k) || is_unspecified k then Ok (s, Some TInvalidIP) else
   (r <- find_or_create m k now s ;;
    let s1 := update_name KDhcp k name (fst r) in
@@ -467,7 +481,7 @@ Definition dhcp4_update (m : mac) (k : ip) (name : N) (now : Z) (s : state) : re
    Ok (if negb (host_online k s2) then online_transition k s2 else s2, None))%res.
 
 (* SetDHCPv4IPOffer *)
-Definition set_offer (m : mac) (k : ip) (name : N) (s : state) : state :=
+Definition set_offer (m : mac) (k : ip) (name : nent) (s : state) : state :=
   let s1 := mac_find_or_create m s in
   upd_mac m (fun e => set_mnames (nset KDhcp name (m_names e)) (set_moffer k e)) s1.
 
@@ -519,12 +533,12 @@ Definition new_session (c : cfg) (now : Z) : res state :=
 Inductive op : Set :=
 | Rx (f : fsum) (now : Z)
 | Notify
-| DHCPv4Update (m : mac) (k : ip) (name : N) (now : Z)
-| SetOffer (m : mac) (k : ip) (name : N)
+| DHCPv4Update (m : mac) (k : ip) (name : nent) (now : Z)
+| SetOffer (m : mac) (k : ip) (name : nent)
 | Capture (m : mac)
 | Release (m : mac)
 | Purge (now : Z) (order : list ip)
-| NameUpdate (kd : nkind) (k : ip) (name : N)
+| NameUpdate (kd : nkind) (k : ip) (name : nent)
 | Drain.
 
 Inductive out : Set :=
